@@ -34,7 +34,7 @@ File(r, p) == [r |-> r, p |-> p]
 PathsIn(t) == {e.p : e \in t}
 RootsOf(p, t) == {e.r : e \in {x \in t : x.p = p}}
 SuffixesFine == \A p \in EffAllowed(C) \cup EffForbidden(C) :
-                  p.k = "suffix" => StartsWith(p.s, ".") /\ DevModelled(p.s)
+                  p.k = "suffix" => SuffixInScope(p.s)
 
 Step == /\ tid <= Len(Traces) /\ phase = "step" /\ l <= Len(Events)
         /\ tree' = CASE Ev.op = "add" -> tree \cup {File(Ev.r, Ev.p)}
